@@ -1,7 +1,6 @@
 package main
 
 import (
-	"github.com/jackc/pgx/v5/pgproto3"
 	"fmt"
 	"io"
 	"os"
@@ -17,26 +16,15 @@ import (
 const schema = `
 schemas:
   - table: t
-    columns: [id, plain, data, srch, num, msk, tok, tokb]
+    columns: [id, a, b]
     encrypted:
-      - column: data
+      - column: a
+        data_type: bytes
+        response_on_fail: error
         crypto_envelope: acrablock
-      - column: srch
-        searchable: true
-      - column: num
-        data_type: int32
+      - column: b
+        data_type: int64
         crypto_envelope: acrablock
-      - column: tok
-        token_type: int32
-        consistent_tokenization: true
-      - column: tokb
-        token_type: bytes
-        consistent_tokenization: false
-      - column: msk
-        crypto_envelope: acrablock
-        masking: "xxxx"
-        plaintext_length: 3
-        plaintext_side: left
 `
 
 func main() {
@@ -46,43 +34,16 @@ func main() {
 		logrus.SetLevel(logrus.DebugLevel)
 	}
 	dir := ksrig.ScratchDir("probe")
-	ks, err := ksrig.V1(dir, ksrig.RandBytes(32), keystore.InfiniteCacheSize)
-	if err != nil {
-		panic(err)
-	}
-	id := []byte("client_one")
-	ksrig.GenClient(ks, id)
+	ks, _ := ksrig.V1(dir, ksrig.RandBytes(32), keystore.InfiniteCacheSize)
+	ksrig.GenClient(ks, []byte("client_one"))
 	db := fakepg.NewDB()
-	db.CreateTable("t", []fakepg.Column{{"id", fakepg.Int4}, {"plain", fakepg.Text}, {"data", fakepg.Bytea}, {"srch", fakepg.Bytea}, {"num", fakepg.Bytea}, {"msk", fakepg.Bytea}, {"tok", fakepg.Int4}, {"tokb", fakepg.Bytea}})
-	srv, err := fakepg.NewServer(db)
+	db.CreateTable("t", []fakepg.Column{{"id", fakepg.Int4}, {"a", fakepg.Bytea}, {"b", fakepg.Bytea}})
+	srv, _ := fakepg.NewServer(db)
+	a1, err := proxyrig.Start(proxyrig.Opts{KS: ks, ClientID: []byte("client_one"), DBPort: srv.Port(), SchemaYAML: schema})
 	if err != nil {
 		panic(err)
 	}
-	a, err := proxyrig.Start(proxyrig.Opts{KS: ks, ClientID: id, DBPort: srv.Port(), SchemaYAML: schema})
-	if err != nil {
-		panic(err)
-	}
-	c, _, err := proxyrig.DialPG(a.Port)
-	if err != nil {
-		panic(err)
-	}
-	show := func(msgs []proxyrig.BackendMsg, err error) {
-		for _, m := range msgs {
-			fmt.Printf("   <- %s %q\n", m.Type, m.Raw)
-		}
-		if err != nil {
-			fmt.Println("   err:", err)
-		}
-	}
-	for _, q := range os.Args[1:] {
-		n := srv.LogLen()
-		fmt.Println("Q:", q)
-		show(c.Simple(q))
-		for _, r := range srv.Log()[n:] {
-			fmt.Printf("   DB got %s: %.300s\n", r.Type, r.SQL)
-		}
-	}
-	fmt.Println("-- extended")
+	a2, _ := proxyrig.Start(proxyrig.Opts{KS: ks, ClientID: []byte("client_two"), DBPort: srv.Port(), SchemaYAML: schema})
 	pr := func(msgs []proxyrig.BackendMsg, err error) {
 		if rd := proxyrig.RowDesc(msgs); rd != nil {
 			for _, f := range rd.Fields {
@@ -90,42 +51,19 @@ func main() {
 			}
 		}
 		for _, r := range proxyrig.Rows(msgs) {
-			fmt.Printf("   row %q\n", r)
+			fmt.Printf("   row %.80q\n", r)
 		}
 		if e := proxyrig.ErrorOf(msgs); e != nil || err != nil {
 			fmt.Println("   error:", e, err)
 		}
 	}
-	pr(c.Simple("insert into t (id, srch) values (1, 'findme'), (2, 'other'), (3, 'findme')"))
-	fmt.Println("-- param text")
-	pr(c.Extended("", "select id from t where srch = $1", nil, [][]byte{[]byte("findme")}, nil, nil, 0))
-	fmt.Println("-- param text hex")
-	pr(c.Extended("", "select id from t where srch = $1", nil, [][]byte{[]byte("\\x66696e646d65")}, nil, nil, 0))
-	fmt.Println("-- param binary")
-	pr(c.Extended("", "select id from t where srch = $1", nil, [][]byte{[]byte("findme")}, []int16{1}, nil, 0))
-	fmt.Println("-- param binary, describe stmt flow")
-	c.Send(&pgproto3.Parse{Name: "s1", Query: "select id from t where srch = $1"}, &pgproto3.Describe{ObjectType: 'S', Name: "s1"}, &pgproto3.Sync{})
-	pr(c.ReadUntilReady())
-	c.Send(&pgproto3.Bind{PreparedStatement: "s1", Parameters: [][]byte{[]byte("findme")}, ParameterFormatCodes: []int16{1}}, &pgproto3.Execute{}, &pgproto3.Sync{})
-	pr(c.ReadUntilReady())
-	fmt.Println("-- reversed literal")
-	pr(c.Simple("select id from t where 'findme' = srch"))
-	fmt.Println("-- reversed param")
-	pr(c.Extended("", "select id from t where $1 = srch", nil, [][]byte{[]byte("findme")}, nil, nil, 0))
-	fmt.Println("-- or")
-	pr(c.Extended("", "select id from t where (srch = $1 or id = $2)", nil, [][]byte{[]byte("findme"), []byte("2")}, nil, nil, 0))
-	fmt.Println("-- and id > '2'")
-	pr(c.Extended("", "select id from t where (srch = $1 and id > '2')", nil, [][]byte{[]byte("findme")}, nil, nil, 0))
-	for _, r := range srv.Log() {
-		if r.SQL != "" {
-			q := r.SQL; if len(q) > 260 { q = q[:60] + " ... " + q[len(q)-120:] }; fmt.Printf("FWD %s: %s\n", r.Type, q)
-		}
-		if r.Bind != nil {
-			fmt.Printf("FWD Bind: %q %v\n", r.Bind.Parameters, r.Bind.ParameterFormatCodes)
-		}
+	c, _, _ := proxyrig.DialPG(a1.Port)
+	pr(c.Simple("insert into t (id, a, b) values (1, 'aaaaaaaaaaaa', 123456789012)"))
+	pr(c.Simple("select id, b from t order by id"))
+	c2, _, _ := proxyrig.DialPG(a2.Port)
+	for _, q := range os.Args[1:] {
+		fmt.Println("Q(no keys):", q)
+		pr(c2.Simple(q))
 	}
-	fmt.Println("unsupported:", srv.Unsupported())
-	c.Close()
-	a.Stop()
 	os.RemoveAll(dir)
 }
